@@ -177,7 +177,17 @@ def run_check(mod, tier, seed, replay=None):
         rc = core.EXIT_VIOLATION
         seen, seen_clause = set(), set()
         each = bool(getattr(mod, "SHRINK_EACH_IDENTITY", False))
-        for hidx, spec, v in all_violations:
+        def _cls(v):
+            return (v.key(), core.digest({k: x for k, x in v.identity.items() if k != "iso3"}))
+
+        first_of_class, rest, cls_seen = [], [], set()
+        for item in all_violations:
+            if item[2] in unknown and _cls(item[2]) not in cls_seen:
+                cls_seen.add(_cls(item[2]))
+                first_of_class.append(item)
+            else:
+                rest.append(item)
+        for hidx, spec, v in first_of_class + rest:
             vid = (v.key(), core.digest(v.identity))
             if v not in unknown or vid in seen:
                 continue
